@@ -288,6 +288,20 @@ def check_stats(cur):
     acc = accepted_chain(cur)
     allatt = [a for a in cur.attempts if 'post' in a]
     present = {k.type for k in stats.keys()}
+    # record types that have to be there because their hook is configured (the user's list, the default hooks, and the
+    # hooks convergence controllers add on their own)
+    hooks_cfg = ' '.join(str(h) for h in cur.cfg.get('hook_classes', []))
+    required = {'niter', 'residual_post_step'}
+    for cls_name, types in (('LogSolution', ['u']), ('LogWork', ['work_rhs']), ('LogSDCIterations', ['k']), ('LogStepSize', ['dt']), ('LogGlobalErrorPostStep', ['e_global_post_step']), ('LogLocalErrorPostStep', ['e_local_post_step'])):
+        if ('.' + cls_name) in hooks_cfg:
+            required.update(types)
+    if cur.cfg.get('restarting') is not None:
+        required.add('restart')
+    if cur.cfg.get('adaptive') is not None and cur.cfg.get('adaptive_family') != 'polynomial' and any(a['post'].get('err') for a in acc):
+        required.add('error_embedded_estimate')
+    for typ in sorted(required - present):
+        if acc:
+            cur.v('records_missing', type=typ, accepted_steps=len(acc), types_present=sorted(str(t) for t in present)[:30])
     for typ, (when, getter) in STAT_TYPES.items():
         if typ not in present:
             continue
